@@ -1,0 +1,110 @@
+//go:build verif
+
+package session
+
+// Contracts for PacketStore and MemorySession (govc, /verif). Comments only.
+//
+// The abstract view of a PacketStore is the map s.packets itself: id -> packet.
+// Every operation states the whole view (all ids), not just the touched key.
+//
+//@ guarded_by PacketStore.mutex: PacketStore.packets
+//
+//@ spec pred wfpkt(pkt packet.Generic) = pkt != nil && (typecode(pkt) != 0 ==> as(pkt, *packet.Publish) != nil)
+//
+//@ func (s *PacketStore) Save(pkt packet.Generic)
+//@   requires [unlocked] held[s.mutex] == 0
+//@   requires [init]     s.packets != nil
+//@   requires [wfpkt]    wfpkt(pkt)
+//@   ensures  [saved]    hasID(pkt) ==> has(s.packets, idOf(pkt)) && s.packets[idOf(pkt)] == pkt
+//@   ensures  [others]   forall k packet.ID :: !(hasID(pkt) && k == idOf(pkt)) ==> (has(s.packets, k) <==> old(has(s.packets, k))) && s.packets[k] == old(s.packets[k])
+//@   ensures  [released] held[s.mutex] == 0
+//@   modifies elems(s.packets), held[s.mutex]
+//
+//@ func (s *PacketStore) Lookup(id packet.ID) (pkt packet.Generic)
+//@   requires [unlocked] held[s.mutex] == 0
+//@   ensures  [found]    has(s.packets, id) ==> pkt == s.packets[id]
+//@   ensures  [absent]   !has(s.packets, id) ==> pkt == nil
+//@   ensures  [released] held[s.mutex] == 0
+//@   modifies held[s.mutex]
+//
+//@ func (s *PacketStore) Delete(id packet.ID)
+//@   requires [unlocked] held[s.mutex] == 0
+//@   ensures  [gone]     !has(s.packets, id)
+//@   ensures  [others]   forall k packet.ID :: k != id ==> (has(s.packets, k) <==> old(has(s.packets, k))) && s.packets[k] == old(s.packets[k])
+//@   ensures  [released] held[s.mutex] == 0
+//@   modifies elems(s.packets), held[s.mutex]
+//
+//@ func (s *PacketStore) Reset()
+//@   requires [unlocked] held[s.mutex] == 0
+//@   ensures  [empty]    s.packets != nil && forall k packet.ID :: !has(s.packets, k)
+//@   ensures  [fresh]    fresh(s.packets)
+//@   ensures  [released] held[s.mutex] == 0
+//@   modifies s.packets, held[s.mutex]
+//
+//@ func (s *PacketStore) All() (all []packet.Generic)
+//@   requires [unlocked] held[s.mutex] == 0
+//@   ensures  [sound]    forall i int :: 0 <= i && i < len(all) ==> exists k packet.ID :: has(s.packets, k) && s.packets[k] == all[i]
+//@   ensures  [fresh]    fresh(all)
+//@   ensures  [released] held[s.mutex] == 0
+//@   modifies held[s.mutex]
+//@   loop 1 invariant [sound] forall i int :: 0 <= i && i < len(all) ==> exists k packet.ID :: has(s.packets, k) && s.packets[k] == all[i]
+//@   loop 1 invariant [fresh] fresh(all)
+//@   loop 1 invariant [held]  held[s.mutex] == 1
+//
+//@ func NewPacketStore() (s *PacketStore)
+//@   ensures [fresh] fresh(s) && s != nil && fresh(s.packets) && s.packets != nil
+//@   ensures [empty] forall k packet.ID :: !has(s.packets, k)
+//@   ensures [unlocked] held[s.mutex] == 0
+//
+//@ func (s *MemorySession) storeForDirection(dir Direction) (st *PacketStore)
+//@   requires [dir] dir == 0 || dir == 1
+//@   ensures  [route] st == (dir == 0 ? s.Incoming : s.Outgoing)
+//
+//@ func (s *MemorySession) NextID() (id packet.ID)
+//@   requires [init]     s.Counter != nil
+//@   requires [unlocked] held[s.Counter.mutex] == 0
+//@   ensures  [nonzero]  id != 0
+//@   ensures  [value]    id == idview(old(s.Counter.next))
+//@   ensures  [advance]  idview(s.Counter.next) == succ(id)
+//@   modifies s.Counter.next, held[s.Counter.mutex]
+//
+//@ spec pred wfsession(s *MemorySession) = s.Incoming != nil && s.Outgoing != nil && s.Incoming != s.Outgoing && s.Incoming.packets != nil && s.Outgoing.packets != nil && s.Incoming.packets != s.Outgoing.packets && held[s.Incoming.mutex] == 0 && held[s.Outgoing.mutex] == 0
+//
+//@ func (s *MemorySession) SavePacket(dir Direction, pkt packet.Generic) (err error)
+//@   requires [dir]   dir == 0 || dir == 1
+//@   requires [wf]    wfsession(s)
+//@   requires [wfpkt] wfpkt(pkt)
+//@   ensures  [ok]    err == nil
+//@   ensures  [saved] hasID(pkt) ==> has((dir == 0 ? s.Incoming : s.Outgoing).packets, idOf(pkt)) && (dir == 0 ? s.Incoming : s.Outgoing).packets[idOf(pkt)] == pkt
+//@   ensures  [others] forall k packet.ID :: !(hasID(pkt) && k == idOf(pkt)) ==> (has((dir == 0 ? s.Incoming : s.Outgoing).packets, k) <==> old(has((dir == 0 ? s.Incoming : s.Outgoing).packets, k))) && (dir == 0 ? s.Incoming : s.Outgoing).packets[k] == old((dir == 0 ? s.Incoming : s.Outgoing).packets[k])
+//@   ensures  [otherdir] forall k packet.ID :: (has((dir == 0 ? s.Outgoing : s.Incoming).packets, k) <==> old(has((dir == 0 ? s.Outgoing : s.Incoming).packets, k))) && (dir == 0 ? s.Outgoing : s.Incoming).packets[k] == old((dir == 0 ? s.Outgoing : s.Incoming).packets[k])
+//@   ensures  [wf]    wfsession(s)
+//@   modifies elems((dir == 0 ? s.Incoming : s.Outgoing).packets), held[(dir == 0 ? s.Incoming : s.Outgoing).mutex]
+//
+//@ func (s *MemorySession) LookupPacket(dir Direction, id packet.ID) (pkt packet.Generic, err error)
+//@   requires [dir]   dir == 0 || dir == 1
+//@   requires [wf]    wfsession(s)
+//@   ensures  [ok]    err == nil
+//@   ensures  [found] has((dir == 0 ? s.Incoming : s.Outgoing).packets, id) ==> pkt == (dir == 0 ? s.Incoming : s.Outgoing).packets[id]
+//@   ensures  [absent] !has((dir == 0 ? s.Incoming : s.Outgoing).packets, id) ==> pkt == nil
+//@   ensures  [wf]    wfsession(s)
+//@   modifies held[(dir == 0 ? s.Incoming : s.Outgoing).mutex]
+//
+//@ func (s *MemorySession) DeletePacket(dir Direction, id packet.ID) (err error)
+//@   requires [dir]   dir == 0 || dir == 1
+//@   requires [wf]    wfsession(s)
+//@   ensures  [ok]    err == nil
+//@   ensures  [gone]  !has((dir == 0 ? s.Incoming : s.Outgoing).packets, id)
+//@   ensures  [others] forall k packet.ID :: k != id ==> (has((dir == 0 ? s.Incoming : s.Outgoing).packets, k) <==> old(has((dir == 0 ? s.Incoming : s.Outgoing).packets, k))) && (dir == 0 ? s.Incoming : s.Outgoing).packets[k] == old((dir == 0 ? s.Incoming : s.Outgoing).packets[k])
+//@   ensures  [otherdir] forall k packet.ID :: (has((dir == 0 ? s.Outgoing : s.Incoming).packets, k) <==> old(has((dir == 0 ? s.Outgoing : s.Incoming).packets, k))) && (dir == 0 ? s.Outgoing : s.Incoming).packets[k] == old((dir == 0 ? s.Outgoing : s.Incoming).packets[k])
+//@   ensures  [wf]    wfsession(s)
+//@   modifies elems((dir == 0 ? s.Incoming : s.Outgoing).packets), held[(dir == 0 ? s.Incoming : s.Outgoing).mutex]
+//
+//@ func (s *MemorySession) AllPackets(dir Direction) (all []packet.Generic, err error)
+//@   requires [dir]   dir == 0 || dir == 1
+//@   requires [wf]    wfsession(s)
+//@   ensures  [ok]    err == nil
+//@   ensures  [sound] forall i int :: 0 <= i && i < len(all) ==> exists k packet.ID :: has((dir == 0 ? s.Incoming : s.Outgoing).packets, k) && (dir == 0 ? s.Incoming : s.Outgoing).packets[k] == all[i]
+//@   ensures  [fresh] fresh(all)
+//@   ensures  [wf]    wfsession(s)
+//@   modifies held[(dir == 0 ? s.Incoming : s.Outgoing).mutex]
